@@ -957,6 +957,8 @@ pub enum COp {
     Assertion(String),
     /// try_encrypt / try_sign with key `key` (index) and nonce seed
     Mint { key: usize, seed: [u8; 32] },
+    /// continue with a clone of the builder object
+    CloneObj,
 }
 
 macro_rules! run_core_local {
@@ -974,6 +976,11 @@ macro_rules! run_core_local {
                 }
                 COp::Assertion(_a) => {
                     run_generic_builder!(@assert $has, b, _a);
+                }
+                COp::CloneObj => {
+                    #[allow(clippy::clone_on_copy)]
+                    let c = b.clone();
+                    b = c;
                 }
                 COp::Mint { key, seed } => {
                     let nk = Key::<$N>::from(&seed[..$N]);
@@ -1005,6 +1012,11 @@ macro_rules! run_core_public {
                 }
                 COp::Assertion(_a) => {
                     run_generic_builder!(@assert $has, b, _a);
+                }
+                COp::CloneObj => {
+                    #[allow(clippy::clone_on_copy)]
+                    let c = b.clone();
+                    b = c;
                 }
                 COp::Mint { key, .. } => {
                     let k = &$keys[*key];
